@@ -95,7 +95,8 @@ def run(ctx):
                 "whitespace-free ASCII alphabet incl. '#', '@', '****', over-long; names incl. empty, '@<TRIPOS>…'-like, "
                 "'#'-like; coordinates from a boundary set: ±0, ties at the 7th decimal, 1e-7, ±1e7, 1e15, NaN, ±inf; "
                 "charges with ties at the 4th decimal; MULTIGRAPHS: 2..3 parallel bonds on one atom pair with equal and "
-                "different types in both orientations, occasional self-bonds; repeated labels), written as Molecule, as Structure and as ConformerEnsemble. "
+                "different types in both orientations, occasional self-bonds; repeated labels), written as Molecule, as Structure, as ConformerEnsemble, as Substructure "
+                "views of non-leading atom subsets, and as molecules whose atoms' parent link was taken over by another object or is dead. "
                 "A case = one object (write differential + read differential + 3-cycle oracle), one bundled file, "
                 "or one type/number token. Non-trivial: ≥1 atom and (≥1 bond or a non-Regular atom type); "
                 "distinct by canonical hash.")
@@ -119,6 +120,65 @@ def run(ctx):
     max_atoms = 24 if quick else 60
     for i in range(n_gen):
         specs.append(tl.gen_mol_spec(rng, en, max_atoms, specials=(i % 5 == 0)))
+
+    def check_written(obj, cls, kind_word, what, replay, with_charges):
+        """obj.dumps_mol2() against the model writer fed with the canonical form of `obj` itself, and the round trip
+        oracle: the written bond table is the object's bond list (indices relative to the object written)"""
+        ctx.count(f"writer:{what.split(':')[0]}")
+        try:
+            want = tl.canon_mol(en, obj, with_charges=with_charges)
+        except Exception as e:  # noqa: BLE001
+            ctx.disagree("could not take the canonical form of the object to be written", what, repr(e), "ok")
+            return
+        ctx.case({"writer": what, "mol": want}, len(want["bonds"]) >= 1)
+        st, text = tl.limited(obj.dumps_mol2)
+        if st != "ok":
+            ctx.violation("C07:dumps-mol2-raises", f"{what}: dumps_mol2 raised {type(text).__name__}: {text}", replay)
+            return
+        ask(f"write {kind_word} {tl.mol_request(want)}",
+            lambda resp, text=text, what=what, want=want: (resp == "ok " + tl.hx(text)) or ctx.disagree(
+                f"{what}: dumps_mol2 text differs from the model writer applied to the object written", want, text,
+                tl.unhx(resp[3:]) if resp.startswith("ok ") else resp))
+        st, back = tl.limited(lambda: cls.loads_all_mol2(text))
+        if st != "ok" or len(back) != 1:
+            ctx.violation("C07:own-output-rejected", f"{what}: the written text is not read back as one molecule ({back!r})", replay)
+            return
+        oracle_roundtrip(ctx, en, want, tl.canon_mol(en, back[0], with_charges=with_charges), what, replay,
+                         check_charges=with_charges)
+
+    def alt_writers(spec):
+        n = len(spec["atoms"])
+        # (a) Substructure views: a non-leading subset of the atoms (random order), written by Structure.dump_mol2
+        for cls in (ml.Molecule, ml.Structure):
+            parent = tl.build_molecule(en, spec, cls)
+            ksub = rng.range(1, n - 1) if n > 2 else 1
+            idx = rng.shuffle(list(range(n)))[:ksub]
+            if idx == list(range(ksub)):
+                idx = [i + (n - ksub) for i in idx] if n - ksub > 0 else idx[::-1]
+            try:
+                sub = parent.substructure(idx)
+            except Exception as e:  # noqa: BLE001
+                ctx.disagree("could not build a substructure", idx, repr(e), "ok")
+                continue
+            check_written(sub, ml.Structure, "structure", f"Substructure of {cls.__name__}: atoms {idx}",
+                          {"kind": "substructure", "spec": spec, "atoms": idx, "parent": cls.__name__}, False)
+            # the parent itself must not have been disturbed by the view
+            check_written(parent, cls, "molecule" if cls is ml.Molecule else "structure",
+                          f"parent after substructure: {cls.__name__}", {"kind": cls.__name__.lower(), "spec": spec},
+                          cls is ml.Molecule)
+        # (b) the atoms' back-reference was taken over by another (live) object built from the same atoms, uncopied
+        k0 = rng.range(1, n - 1)
+        m = tl.build_molecule(en, spec, ml.Molecule)
+        thief = ml.Promolecule(m.atoms[k0:])
+        check_written(m, ml.Molecule, "molecule", f"parent link stolen: Promolecule(m.atoms[{k0}:]) alive",
+                      {"kind": "stolen-parent", "spec": spec, "from": k0}, True)
+        del thief
+        # (c) ... or is dead: the other owner was short-lived
+        m = tl.build_molecule(en, spec, ml.Molecule)
+        ml.Promolecule(m.atoms[k0:]).formula
+        ml.Structure(m.atoms[:k0])      # both owners are gone at once (reference counting): the weak parent link is dead
+        check_written(m, ml.Molecule, "molecule", f"parent link dead: Promolecule(m.atoms[{k0}:]).formula",
+                      {"kind": "dead-parent", "spec": spec, "from": k0}, True)
 
     for si, spec in enumerate(specs):
         ctx.check_deadline()
@@ -162,6 +222,10 @@ def run(ctx):
         if si < 2:
             ctx.sample({"molecule": {"name": spec["name"], "n_atoms": len(spec["atoms"]), "n_bonds": len(spec["bonds"])},
                         "text_head": t1[:400]})
+        # ---- other writers of the same atoms (every 2nd molecule with >= 2 atoms): what is written must be the object
+        #      being written — bond endpoints relative to ITS atom list — whoever the atoms' `parent` currently is
+        if si % 2 == 1 and len(spec["atoms"]) >= 2 and (quick or si < 3000):
+            alt_writers(spec)
         # ---- Structure (every 3rd)
         if si % 3 == 0:
             ctx.count("structures")
